@@ -277,6 +277,23 @@ def confront(case, res, periods, rng):
                 tot *= 1.0 + v / unit
             if not close(tot, total_exact):
                 out.append(("aggregate-export", "%s compounds to %r, total return is %s" % (name, tot, total_exact)))
+        # (c'') "the JSON export reports the same numbers": its chart-format lists carry the same aggregates as its plain lists -
+        # the same (year, month) cells with the same values (x 100), flat months (return exactly 0.0) included
+        try:
+            plain_m = dict(((int(k[0]), int(k[1])), float(v)) for k, v in st["monthly_agg_returns"])
+            yrs = sorted(set(k[0] for k in plain_m))
+            chart_m = dict(((yrs[int(yi)], int(mi) + 1), float(v) / 100.0) for mi, yi, v in st["monthly_agg_returns_hc"])
+            if set(chart_m) != set(plain_m):
+                out.append(("aggregate-export", "monthly_agg_returns_hc lists the months %s, monthly_agg_returns lists %s" % (
+                    sorted(chart_m), sorted(plain_m))))
+            elif any(not (abs(chart_m[k] - plain_m[k]) <= 1e-9 * max(1.0, abs(plain_m[k]))) for k in plain_m):
+                out.append(("aggregate-export", "monthly_agg_returns_hc %s differs from monthly_agg_returns %s" % (chart_m, plain_m)))
+            plain_y = [float(v) for _k, v in st["yearly_agg_returns"]]
+            chart_y = [float(v) / 100.0 for v in st["yearly_agg_returns_hc"]]
+            if len(plain_y) != len(chart_y) or any(not (abs(a_ - b_) <= 1e-9 * max(1.0, abs(a_))) for a_, b_ in zip(plain_y, chart_y)):
+                out.append(("aggregate-export", "yearly_agg_returns_hc %s differs from yearly_agg_returns %s" % (chart_y, plain_y)))
+        except (KeyError, TypeError, ValueError, IndexError) as e:
+            out.append(("aggregate-export", "the export's aggregate lists cannot be read: %s: %s" % (type(e).__name__, e)))
         # (d) CAGR, Sharpe, Sortino
         exp_cagr = float(fr(cum[-1])) ** (periods / float(n)) - 1.0
         if not (abs(st["cagr"] - exp_cagr) <= 1e-8 * max(1.0, abs(exp_cagr))):
